@@ -391,6 +391,7 @@ def run(ck):
     malformed = 0
     first_misaligned = None
     timeouts = []
+    many_done = False
     for si, spec in enumerate(specs):
         try:
             m = build(spec)
@@ -489,6 +490,18 @@ def run(ck):
                 kcases.append(dict(exact=exact, X=int_rows(raw[0]), J=[[int(v) for v in row] for row in raw[1]] if raw[1].ndim == 2 else [],
                                    T=[float(v) for v in raw[2]], grid=g, oX=oX, oJ=oJ, hit=h, nE=len(spec["events"]),
                                    case=strip(case)))
+        # one run per check with many events of one transition inside a single output interval (several hundred)
+        if not many_done and spec["kind"] == "corpus":
+            many_done = True
+            spm = dict(nS=2, x0=[700, 0], kind="corpus", events=[dict(c="1", form=["lin", 0, None], trans=[dict(tt="T", o=0, d=1, mag=1)])])
+            cm = dict(spec=spm, seed=3, grid=[0.0, 2.0, 2.5, 8.0], kind="array", exact=True, n=1, pre_tau=None)
+            try:
+                jm = judge_case(cm, spec_V(spm))
+                ck.case(strip(cm), nontrivial=True)
+                if jm:
+                    ck.violation(jm[0], jm[1], strip(cm))
+            except SimTimeout:
+                timeouts.append(dict(spec=spm, seed=3, exact=True, pre_tau=None))
         # one absorbing start per run of the check (constant path; grid extends past "extinction")
         if not absorbing_done and spec["kind"] == "closed":
             absorbing_done = True
